@@ -53,7 +53,12 @@ def run(tier, v):
                 i = len(exp)
                 exp[i] = o
                 head = ("\r\n".join(o["lines"]) + "\r\n\r\n").encode()
-                f.write(json.dumps({"id": i, "op": "parse", "kind": o["kind"], "datas": [(head + b).hex() for b in BODIES]}) + "\n")
+                datas = [(head + b).hex() for b in BODIES]
+                if tier == "thorough" or i % 3 == 0:
+                    # the same head with bare LF line ends (which the parser accepts): same meaning, same independence of the body
+                    head_lf = ("\n".join(o["lines"]) + "\n\n").encode()
+                    datas += [(head_lf + b).hex() for b in BODIES]
+                f.write(json.dumps({"id": i, "op": "parse", "kind": o["kind"], "datas": datas}) + "\n")
             r = vlib.tlc("MC_C05", pid=PID, workers=8, tag_sink=sink, env={"VERIF_FAM": fam, "VERIF_MAXLEN": 3 if tier == "thorough" else 2}, timeout=3000, heap="10g")
         states += r.distinct
         trans += r.generated
@@ -64,7 +69,9 @@ def run(tier, v):
             n_heads += 1
             for bi, res in enumerate(o["out"]):
                 n += 1
-                ctx = {"family": fam, "kind": e["kind"], "head_lines": e["lines"], "body": BODY_NAMES[bi]}
+                lf = bi >= len(BODIES)
+                bi = bi % len(BODIES)
+                ctx = {"family": fam, "kind": e["kind"], "head_lines": e["lines"], "line_ends": "LF" if lf else "CRLF", "body": BODY_NAMES[bi]}
                 if res["r"] == "panic":
                     v.violation(dict(ctx, observed="panic: " + res["e"]))
                     continue
@@ -100,7 +107,7 @@ def run(tier, v):
         "evaluations": n, "distinct_nontrivial": n_heads,
         "rule": "%d heads of MC_C05 (families start/hdrs/ows/cookie/lang/many; header lists up to length %d) x %d bodies; non-trivial = distinct heads" % (n_heads, 3 if tier == "thorough" else 2, len(BODIES)),
         "samples": samples or [{"note": "none drawn"}], "exhaustive": True,
-    }, ["heads are ASCII with CRLF line ends; bodies carry the binary / UTF-8 dimension", "position, timing and metadata fields are not compared",
+    }, ["heads are ASCII with CRLF line ends (every third head in quick, all in thorough, also with bare LF line ends); bodies carry the binary / UTF-8 dimension", "position, timing and metadata fields are not compared",
         "Cookie / Referer are not duplicated within one head", "the language table is restricted to en/fr/de/es in the specification"])
 
 
